@@ -14,10 +14,10 @@ def build(tier):
     src = hgen.preamble("C01", tier, ROOT) + "import vlib.hlib.c01 as L\n"
     conds = []
     T = 250 if q else 1800
-    nmax = 3 if q else 6
+    nmax = 3 if q else 5
     bsmax = 2 if q else 3
-    offs = [0, 2, 4] if q else [0, 1, 2, 3, 4, 5, 7]
-    olds = [-1, 0, 3] if q else [-1, 0, 1, 2, 3, 4]
+    offs = [0, 2, 4] if q else [0, 1, 2, 4, 7]
+    olds = [-1, 0, 3] if q else [-1, 0, 2, 3, 5]
     src += f"OFFS = {offs!r}\nOLDS = {olds!r}\n"
     params = "n: int, bs: int, c1: int, x1: int, x2: int"
     for verb in ("stor", "appe", "retr"):
